@@ -875,8 +875,8 @@ func (c *compiler) VisitUnaryExpr(e *ast.UnaryExpr) ast.VisitResult {
 	case ast.UN_ABS:
 		switch typ {
 		case c.ddpfloattyp:
-			// c.latestReturn = rhs < 0 ? 0 - rhs : rhs;
-			c.latestReturn = c.createTernary(c.cbb.NewFCmp(enum.FPredOLT, rhs, zerof),
+			// c.latestReturn = rhs <= 0 ? 0 - rhs : rhs; (<= so that -0,0 becomes 0,0 as well)
+			c.latestReturn = c.createTernary(c.cbb.NewFCmp(enum.FPredOLE, rhs, zerof),
 				func() value.Value { return c.cbb.NewFSub(zerof, rhs) },
 				func() value.Value { return rhs },
 			)
